@@ -91,11 +91,10 @@ def _loads_kvn(string):
         man = {}
         man["date"] = parse_date(raw_man["MAN_EPOCH_IGNITION"].text, scale)
         man["duration"] = timedelta(seconds=decode_unit(raw_man, "MAN_DURATION", "s"))
-        man["frame"] = (
-            raw_man["MAN_REF_FRAME"].text
-            if raw_man["MAN_REF_FRAME"].text != frame
-            else None
-        )
+        man_frame = raw_man["MAN_REF_FRAME"].text
+        if man_frame in ("RSW", "RTN"):
+            man_frame = "QSW"
+        man["frame"] = man_frame if man_frame != frame else None
         man["delta_mass"] = raw_man["MAN_DELTA_MASS"].text
         man["comment"] = raw_man["COMMENT"].text if "COMMENT" in raw_man else None
 
@@ -179,11 +178,10 @@ def _loads_xml(string):
             man["duration"] = timedelta(
                 seconds=decode_unit(raw_man, "MAN_DURATION", "s")
             )
-            man["frame"] = (
-                raw_man["MAN_REF_FRAME"].text
-                if raw_man["MAN_REF_FRAME"].text != frame
-                else None
-            )
+            man_frame = raw_man["MAN_REF_FRAME"].text
+            if man_frame in ("RSW", "RTN"):
+                man_frame = "QSW"
+            man["frame"] = man_frame if man_frame != frame else None
             man["delta_mass"] = raw_man["MAN_DELTA_MASS"].text
             man["comment"] = raw_man["COMMENT"].text if "COMMENT" in raw_man else None
 
